@@ -3,7 +3,7 @@ SPEC = dict(
     bin="c36",
     cases_quick=900,
     cases_thorough=30000,
-    level="proof+partial",
+    level="proof",
     technique="Coq byte-level model of the instruction buffer (header layout, account table, load_and_init / load_instruction / to_instruction) with a round-trip theorem over list Z + protocol state machine (create/approve/cancel/execute/increase_delay/role changes/clock) with invariants by induction + differential correspondence on the raw account bytes written by the real load_and_init_instruction, the real to_instruction, approve, is_executable (clock stub), increase_delay and the real Store role table",
     text="The executed instruction is byte-for-byte the buffered one (program id, every account key with signer/writable flags, data) and only the executor wallet can be a signer; execution needs an approval by a holder of the timelocked role who still holds it and at least the current delay since approval; approval happens at most once; the delay never decreases; executed or cancelled buffers never run again.",
     level_note="Tied to real code: the full byte image of the buffer account after load_and_init_instruction and after approve, load_instruction, to_instruction(false/true), InstructionHeader::{approve,is_approved,approved_at,apporver,is_executable}, TimelockConfig::increase_delay, Executor::role_name, roles::timelocked_role, Store::{grant,revoke,has_role}. Hand-transcribed (partial): the order of checks inside the timelock instruction handlers, CpiAuthenticate role checks via CPI, Anchor constraints (has_one = executor / rent_receiver / store, close = rent_receiver), account closing, the invoke_signed call itself; clock monotonicity is an assumption about the runtime (TTick dt >= 0).",
